@@ -84,6 +84,12 @@ class Error(Operand):
     _re = _re_error
     errors = {str(k): k for k in (NULL, DIV, VALUE, REF, NUM, NAME, NA)}
 
+    def process(self, match, context=None):
+        attr = super(Error, self).process(match, context=context)
+        if 'name' in attr:  # Error literals are case-insensitive.
+            attr['name'] = attr['name'].upper()
+        return attr
+
     def compile(self):
         return self.errors[self.name]
 
